@@ -206,6 +206,10 @@ def check_digests(env_bytes):
                     msgs.append(f"{where}: digest of severed {R.name_of(cls)} ({name}) does not match the member's wrapped bytes ({len(m.get(sid))} bytes)")
         for k, v in m.pairs:
             if isinstance(k, str) and isinstance(v, bytes) and v[:2] == b"\xd8\x6b":
+                try:  # an integrated member that merely STARTS like an envelope is a payload, not a dependency: nothing to re-derive inside it
+                    cborx.decode_all(cborx.decode_all(v, strict=True).value.get(3), strict=True)
+                except Exception:  # noqa: BLE001
+                    continue
                 walk(v, where + "/" + k)
     walk(env_bytes, "")
     return msgs
